@@ -19,6 +19,9 @@ RULE = ('cases are (law, datetime fields, offset minutes, timespan '
         'negative timespan, or instant before 1970 / after 2038; distinct = '
         'distinct case')
 ASSUMPTIONS = [
+    'host datetimes in a zone with a varying offset (hand-written tzinfo, '
+    'one hour ahead April-September) are judged on (d + t) - t = d and '
+    '(d + t) - d = t only; the instant-based clauses use fixed offsets',
     'the checks run with the process time zone set to UTC+5:30 (TZ '
     'variable, tzset): the property may not depend on the local zone',
     'Python aware-datetime arithmetic (exact integer microseconds since the '
@@ -59,9 +62,36 @@ def off_min(d):
     return 0 if o is None else int(o.total_seconds() // 60)
 
 
+class DstZone(dtm.tzinfo):
+    """a host zone whose offset varies with the date (one hour ahead from
+    April to September), the way zones with daylight saving time do; no zone
+    database needed"""
+
+    def __init__(self, minutes):
+        self.minutes = minutes
+
+    def _summer(self, d):
+        return d is not None and 4 <= d.month <= 9
+
+    def utcoffset(self, d):
+        return dtm.timedelta(minutes=self.minutes + (
+            60 if self._summer(d) else 0))
+
+    def dst(self, d):
+        return dtm.timedelta(minutes=60 if self._summer(d) else 0)
+
+    def tzname(self, d):
+        return 'DST%+d' % self.minutes
+
+    def __repr__(self):
+        return 'DstZone(%d)' % self.minutes
+
+
 def mk_tz(kind, minutes):
     if kind == 'naive':
         return None
+    if kind == 'dst':
+        return DstZone(max(min(minutes, 1300), -1300))
     if kind == 'tzutc' and minutes == 0:
         return tz.tzutc()
     if kind == 'timezone':
@@ -263,6 +293,27 @@ def law_add_sub(run, case):
     model_t = mk_ts(t)
     text = ('let(d => %s, t => %s) -> [($d + $t) - $t, ($d + $t) - $d, '
             '$t + $d, $d - $t, $d + $t]' % (dx, tx))
+    if case.get('tzkind') == 'dst':
+        # a host zone with a varying offset: adding a timespan moves the
+        # wall clock (python's arithmetic), so only the two laws of the
+        # property are judged: (d + t) - t = d, (d + t) - d = t
+        host = binds['d']
+        try:
+            host + model_t, host - model_t, (host + model_t) - model_t
+        except OverflowError:
+            run.exclude('out of the datetime range')
+            return
+        got = _get(run, case, 'add-sub', text, **binds)
+        if got is None:
+            return
+        back, span = got[0], got[1]
+        if not isinstance(back, dtm.datetime) or back.replace(
+                tzinfo=None) != host.replace(tzinfo=None) or \
+                back.utcoffset() != host.utcoffset() or span != model_t:
+            _fail(run, case, 'add-sub-wrong',
+                  '%s with d=%r -> (d + t) - t = %r, (d + t) - d = %r; t = '
+                  '%r' % (text, host, back, span, model_t))
+        return
     got = _get(run, case, 'add-sub', text, **binds)
     if got is None:
         return
@@ -592,6 +643,12 @@ def cases(draw):
             c['d'][2] = 28
     if law in ('add-sub', 'naive-twin'):
         c['t'] = draw(span)
+    if law == 'add-sub' and draw(st.integers(0, 2)) == 0:
+        # host datetime in a zone with a varying offset; timespans of days
+        # and months so that the offset changes in between
+        c['spelling'] = 'host'
+        c['tzkind'] = 'dst'
+        c['t'] = [draw(st.integers(-400, 400))] + draw(span)[1:]
     if law in ('compare', 'naive-twin'):
         same = draw(st.integers(0, 2)) == 0
         if same and law == 'compare':
